@@ -145,6 +145,34 @@ func c20Scenario(seed uint64) (*core.Scenario, *C20Extra, string) {
 		}
 	}
 	n := len(ex.Base)
+	if ex.Kind == "grl" && r.Chance(1, 6) {
+		// structure-aware hostile but LEGAL shapes: deeply (balanced) parenthesised condition, long chains of
+		// selectors / member accesses / method calls after a call
+		t := string(ex.Base)
+		if p := strings.Index(t, "when\n    "); p >= 0 {
+			p += len("when\n    ")
+			q := p + strings.Index(t[p:], "\n")
+			k := int(r.PickInt64(8, 16, 24, 40, 60))
+			switch r.Intn(4) {
+			case 0:
+				ex.Ops = append(ex.Ops, dsim.COp{Kind: "insert", Pos: q, Text: strings.Repeat(")", k)}, dsim.COp{Kind: "insert", Pos: p, Text: strings.Repeat("(", k)})
+			case 1:
+				ex.Ops = append(ex.Ops, dsim.COp{Kind: "insert", Pos: q, Text: " && F.Tag()" + strings.Repeat("[0]", k) + " == 1"})
+			case 2:
+				ex.Ops = append(ex.Ops, dsim.COp{Kind: "insert", Pos: q, Text: " && F.Tag()" + strings.Repeat(".ToUpper()", k) + " == \"A\""})
+			default:
+				ex.Ops = append(ex.Ops, dsim.COp{Kind: "insert", Pos: q, Text: " && F.P" + strings.Repeat(".Q", k) + " == 1"})
+			}
+			sc := &core.Scenario{Property: "C20", Sim: "D", Seed: seed}
+			return sc, ex, ""
+		}
+	}
+	var idPos []int
+	if ex.Kind == "grb" {
+		for _, m := range nodeID.FindAllIndex(ex.Base, -1) {
+			idPos = append(idPos, m[0])
+		}
+	}
 	nops := r.Range(1, 4)
 	if r.Chance(1, 12) {
 		nops = 0 // undamaged: calibrates the bound on valid inputs
@@ -152,6 +180,11 @@ func c20Scenario(seed uint64) (*core.Scenario, *C20Extra, string) {
 	for i := 0; i < nops && n > 0; i++ {
 		pos := r.Intn(n)
 		switch x := r.Intn(12); {
+		case x < 2:
+			ex.Ops = append(ex.Ops, dsim.COp{Kind: "flip", Pos: pos, Val: uint64(r.Intn(8))})
+		case x < 3 && len(idPos) > 1:
+			// a node reference overwritten with another id of the same stream: dangling or cyclic references
+			ex.Ops = append(ex.Ops, dsim.COp{Kind: "splice", Pos: idPos[r.Intn(len(idPos))], Src: idPos[r.Intn(len(idPos))], Len: 11})
 		case x < 3:
 			ex.Ops = append(ex.Ops, dsim.COp{Kind: "flip", Pos: pos, Val: uint64(r.Intn(8))})
 		case x < 6 && ex.Kind == "grb" && len(fieldStarts) > 0:
@@ -183,6 +216,7 @@ func c20Scenario(seed uint64) (*core.Scenario, *C20Extra, string) {
 }
 
 var hexAddr = regexp.MustCompile(`0x[0-9a-f]+`)
+var nodeID = regexp.MustCompile(`n[0-9]{10}`)
 
 // bracketRun is the longest run of consecutive opening brackets in a text input.
 func bracketRun(d []byte) int {
@@ -216,13 +250,15 @@ func c20Eval(ex *C20Extra, timeout time.Duration) (v *core.Violation, herr strin
 	}
 	switch {
 	case hung:
-		return &core.Violation{Oracle: "C20.hang", Property: "C20", Message: fmt.Sprintf("%s loader did not return within %v on %d input bytes", ex.Kind, timeout, len(data))}, "", nil
+		return &core.Violation{Oracle: "C20.resource-blowup", Property: "C20", Message: fmt.Sprintf("%s loader did not return within %v on %d input bytes", ex.Kind, timeout, len(data))}, "", nil
 	case died:
-		return &core.Violation{Oracle: "C20.memory-blowup", Property: "C20", Message: fmt.Sprintf("%s loader ended the process (heap beyond the 3 GiB watchdog or a fatal out-of-memory error) on %d input bytes", ex.Kind, len(data))}, "", nil
+		return &core.Violation{Oracle: "C20.resource-blowup", Property: "C20", Message: fmt.Sprintf("%s loader ended the process (heap beyond the 3 GiB watchdog, or a fatal runtime error such as out of memory or stack overflow) on %d input bytes", ex.Kind, len(data))}, "", nil
 	case resp.Outcome == "panic":
 		return &core.Violation{Oracle: "C20.panic", Property: "C20", Message: fmt.Sprintf("%s loader panicked in %s: %s", ex.Kind, resp.Frame, hexAddr.ReplaceAllString(resp.Msg, "0x#"))}, "", resp
+	case resp.WallUs > 10_000_000 && len(data) <= 1<<16:
+		return &core.Violation{Oracle: "C20.resource-blowup", Property: "C20", Message: fmt.Sprintf("%s loader needed %.1f s for %d input bytes", ex.Kind, float64(resp.WallUs)/1e6, len(data))}, "", resp
 	case resp.Alloc > dsim.Bound(len(data)):
-		return &core.Violation{Oracle: "C20.memory-blowup", Property: "C20", Message: fmt.Sprintf("%s loader allocated %d MiB for %d input bytes (bound %d MiB)", ex.Kind, resp.Alloc>>20, len(data), dsim.Bound(len(data))>>20)}, "", resp
+		return &core.Violation{Oracle: "C20.resource-blowup", Property: "C20", Message: fmt.Sprintf("%s loader allocated %d MiB for %d input bytes (bound %d MiB)", ex.Kind, resp.Alloc>>20, len(data), dsim.Bound(len(data))>>20)}, "", resp
 	}
 	return nil, "", resp
 }
@@ -281,9 +317,12 @@ func runC20(c *Check, seed uint64, i int, tier string, st *core.Stats) {
 		return
 	}
 	// a hang or abort is confirmed by a solo re-run with three times the budget before it is believed
-	if v.Oracle == "C20.hang" || v.Oracle == "C20.memory-blowup" {
+	if v.Oracle == "C20.resource-blowup" {
 		v2, _, _ := c20Eval(ex, 3*c20Timeout(len(data)))
 		if v2 == nil || v2.Oracle != v.Oracle {
+			if os.Getenv("VERIF_DEBUG") != "" {
+				fmt.Fprintf(os.Stderr, "UNCONFIRMED first=%+v second=%+v kind=%s ops=%+v\n", v, v2, ex.Kind, ex.Ops)
+			}
 			st.Probes["unconfirmed."+v.Oracle]++
 			if len(st.Harness) < 5 {
 				st.Harness = append(st.Harness, "unconfirmed "+v.Oracle+" (not reproduced alone): machinery trouble, not a verdict")
@@ -293,7 +332,7 @@ func runC20(c *Check, seed uint64, i int, tier string, st *core.Stats) {
 	}
 	st.Probes["violation."+v.Oracle]++
 	sig := v.Oracle + "|" + ex.Kind + "|" + firstWords(v.Message)
-	if v.Oracle == "C20.memory-blowup" {
+	if v.Oracle == "C20.resource-blowup" {
 		sig = fmt.Sprintf("%s|%s|deep=%v", v.Oracle, ex.Kind, bracketRun(data) >= 100)
 	}
 	for _, f := range st.Found {
@@ -310,7 +349,7 @@ func runC20(c *Check, seed uint64, i int, tier string, st *core.Stats) {
 		st.Shrunk++
 		d := dsim.Apply(cand.Base, cand.Ops)
 		vv, _, _ := c20Eval(cand, 3*c20Timeout(len(d)))
-		return vv != nil && vv.Oracle == v.Oracle && (v.Oracle == "C20.memory-blowup" || firstWords(vv.Message) == firstWords(v.Message))
+		return vv != nil && vv.Oracle == v.Oracle && (v.Oracle == "C20.resource-blowup" || firstWords(vv.Message) == firstWords(v.Message))
 	}
 	for j := 0; j < len(best.Ops) && len(best.Ops) > 1; {
 		cand := best
